@@ -1,6 +1,7 @@
 from harness import evprops, hcommon, hprop_run, mixed
 
 PROP = "C12"
+EXTRA_PROPS = ("C12b",)      # invariant: no new file data after the sender's notice of cancellation
 FAULT_TABLES = False
 DEFAULT_ONLY = False
 
@@ -28,7 +29,7 @@ def run(tier, seed):
     if PROP == "C14":
         rc_extra = evprops.set_handler_refuses()
     hc = hcommon.HandlerCheck(PROP, tier, seed)
-    hc.gate()
+    hc.gate(EXTRA_PROPS)
     hc.run_corpus(lambda kind: evprops.oracle_c12)
     for text in rc_extra:
         hc.v.violation("oracle: C14 " + text, {"api": "DefaultFaultHandlerBase.set_handler"})
